@@ -175,6 +175,8 @@ impl LoggerHandle {
         &mut self,
         new_spec: S,
     ) -> Result<(), FlexiLoggerError> {
+        // parse first: a malformed string must leave the stack untouched
+        let new_spec = LogSpecification::parse(new_spec)?;
         self.writers_handle.spec_stack.push(
             self.writers_handle
                 .spec
@@ -182,7 +184,7 @@ impl LoggerHandle {
                 .map_err(|_| FlexiLoggerError::Poison)?
                 .clone(),
         );
-        self.set_new_spec(LogSpecification::parse(new_spec)?);
+        self.set_new_spec(new_spec);
         Ok(())
     }
 
